@@ -19,6 +19,8 @@ import (
 	. "verifharness/common"
 )
 
+const implTimeout = 1500 * time.Millisecond
+
 const implMaxDepth = 3000 // generated programs recurse a few levels; a runaway recursion ends quickly as P depth
 
 // renderValue prints a value from the concrete Go types: Integer and Float stay distinct, floats by bits,
@@ -138,7 +140,7 @@ func runImpl(src string, noReg bool) (res implRes) {
 		finish("X", "parse")
 		return
 	}
-	ctx, cancel := context.WithTimeout(context.Background(), 5*time.Second)
+	ctx, cancel := context.WithTimeout(context.Background(), implTimeout)
 	defer cancel()
 	s.Context = ctx
 	s.Cancel = cancel
